@@ -4,6 +4,11 @@ HOOK_COMMITS = ["3294ba2"]
 
 NOT_APPLICABLE = {}
 
+_ATOM = (" Second model (lean/ALock/Atomic): one step = one atomic operation on the state word, any number of threads, "
+         "EVERY interleaving; tied to the code by a site table (operations on the word with operands and Orderings, in source "
+         "order per function) extracted from /repo's sources on every run - theorem *_shape_ok states the table is the one "
+         "the model has steps for, *_ord_ok that the orderings at the synchronising sites are at least Acquire/Release.")
+
 _SEARCH = (" Beyond the theorems (search aid, not part of the proof level): small concurrent scenarios of this property "
            "are run against the real crate under loom 0.7 (all interleavings up to a preemption bound, C11 memory model; "
            "the protected payload is a loom UnsafeCell, so an exclusion failure or a missing happens-before edge is a "
@@ -24,15 +29,15 @@ CLAIMS = {
         "technique": "Lean 4 theorems (reachability in a capability graph; decide over the complete finite table) about a table regenerated from rustc's verdicts on /repo on every run",
     },
     "C01": {
-        "text": "Exclusion (at most one guard; the state word equals guards + 2*starved operations; a guard is only handed out when none is alive) is a Lean theorem over every finite history of the poll-granular Mutex model: every mix of lock/lock_arc/try_lock/try_lock_arc, cancellation at any point, the 0.5 ms branch taken or not at every evaluation point. " + _TIE + " Compared fields: outcome and state word." + _SEARCH,
-        "note": "PARTIAL: atomic calls (poll-granular); interleavings of atomic operations and the release-happens-before-acquire clause are not yet covered by a theorem. event-listener is modelled, not verified.",
+        "text": "Exclusion (at most one guard; the state word equals guards + 2*starved operations; a guard is only handed out when none is alive) is a Lean theorem over every finite history of the poll-granular Mutex model: every mix of lock/lock_arc/try_lock/try_lock_arc, cancellation at any point, the 0.5 ms branch taken or not at every evaluation point. " + _TIE + " Compared fields: outcome and state word." + _ATOM + " Theorems: C01_interleaved (exclusion and the word invariant under every interleaving, whatever the orderings) and C01_hb (release/acquire views: whoever holds the mutex has every earlier critical section in its view, i.e. release happens-before the next acquire, given the orderings of the table)." + _SEARCH,
+        "note": "PARTIAL: the interleaving model covers the word protocol (not the control flow between sites, which the poll-granular differential run exercises); memory model = release/acquire with RMW release sequences. event-listener is modelled, not verified.",
     },
     "C02": {
-        "text": "Exclusion (at most one write guard and then no other guard; at most one upgradable guard) is a Lean theorem over every finite history of the poll-granular RwLock model over the full alphabet (start/poll/cancel of read, upgradable_read, write and upgrade futures, borrowed and Arc; try_*; upgrade; try_upgrade; the three downgrades; guard drops). The invariant WordInv determines both words exactly: mutex.state = (W+U+PW+PU) + 2*starved, state = (W+PW+PU) + 2*(R+U), W+U+PW+PU <= 1, a write guard is alone. " + _TIE + " Compared fields: outcome and both state words." + _SEARCH,
-        "note": "PARTIAL: atomic calls (poll-granular); interleavings and the happens-before clauses are not yet covered by a theorem. Reader-count overflow aborts are outside the model.",
+        "text": "Exclusion (at most one write guard and then no other guard; at most one upgradable guard) is a Lean theorem over every finite history of the poll-granular RwLock model over the full alphabet (start/poll/cancel of read, upgradable_read, write and upgrade futures, borrowed and Arc; try_*; upgrade; try_upgrade; the three downgrades; guard drops). The invariant WordInv determines both words exactly: mutex.state = (W+U+PW+PU) + 2*starved, state = (W+PW+PU) + 2*(R+U), W+U+PW+PU <= 1, a write guard is alone. " + _TIE + " Compared fields: outcome and both state words." + _ATOM + " Theorems: C02_interleaved (at most one writer, a writer excludes every shared access - including a write guard in the middle of downgrade_write -, at most one upgradable guard, under every interleaving incl. the states inside an operation), C02_interleaved_word." + _SEARCH,
+        "note": "PARTIAL: no happens-before theorem for the RwLock (loom searches for a missing edge); the interleaving model covers the word protocol, not the control flow between sites. Reader-count overflow aborts are outside the model.",
     },
     "C11": {
-        "text": "The slot invariant (at most one of write guard / upgradable guard / writer waiting for readers / pending upgrade, at every state of every history), the fact that try_upgrade, upgrade() and downgrade_to_upgradable never touch the inner mutex, and 'a pending upgrade excludes writers and upgradable readers' are Lean theorems on the poll-granular RwLock model. " + _TIE + " Compared fields: outcome and both state words; monitors C11 (slot word) and C02." + _SEARCH,
+        "text": "The slot invariant (at most one of write guard / upgradable guard / writer waiting for readers / pending upgrade, at every state of every history), the fact that try_upgrade, upgrade() and downgrade_to_upgradable never touch the inner mutex, and 'a pending upgrade excludes writers and upgradable readers' are Lean theorems on the poll-granular RwLock model. " + _TIE + " Compared fields: outcome and both state words; monitors C11 (slot word) and C02." + _ATOM + " Theorems: C11_interleaved_slot (the inner mutex never has two holders, under every interleaving), C11_interleaved_downgrade (between the two atomic steps of downgrade_write, and while an upgradable guard or a pending upgrade exists, there is no writer and the inner mutex is not available)." + _SEARCH,
         "note": "PARTIAL: atomic calls; the value clause is derived from exclusive access (C02) rather than from a payload model.",
     },
     "C06": {
@@ -60,11 +65,11 @@ CLAIMS = {
         "note": "Arc is modelled, not verified. A memory error that leaves the count unchanged (e.g. unlocking through a dangling reference after the Arc was freed) is outside the theorems; the Miri run searches for it.",
     },
     "C03": {
-        "text": "Conservation, no over-issue, exactness of try_acquire and the per-operation permit deltas are Lean theorems over every initial count and every finite operation sequence of the poll-granular Semaphore model (induction on the history). " + _TIE + " Compared fields: outcome and permit counter." + _SEARCH,
-        "note": "PARTIAL: poll-granular (atomic calls); usize wrap-around outside the model (Nat); interleavings not yet covered by a theorem.",
+        "text": "Conservation, no over-issue, exactness of try_acquire and the per-operation permit deltas are Lean theorems over every initial count and every finite operation sequence of the poll-granular Semaphore model (induction on the history). " + _TIE + " Compared fields: outcome and permit counter." + _ATOM + " Theorems: C03_interleaved_conservation / _no_overissue (racing try_acquire CAS loops incl. spurious weak-CAS failures, concurrent add_permits, drops, forgets)." + _SEARCH,
+        "note": "PARTIAL: usize wrap-around outside the models (Nat); the interleaving model covers the counter protocol, not the wake-up side.",
     },
     "C04": {
-        "text": "Lean theorems over every finite history of the poll-granular OnceCell model (any number of wait/get_or_init/get_or_try_init/set callers, initialisers resolved ok/err/panic or cancelled at any await point in any order, take between epochs): at most one initialiser runs and none once initialised (state 1 iff exactly one live caller holds the guard; a value is stored iff state 2); a stored value is never replaced until take/drop; whatever a completed caller reports is the stored value; set hands its argument back exactly when its closure did not run; take re-opens the cell. " + _TIE + " Compared fields: outcome (incl. reported value), state word, stored value, drop count." + _SEARCH,
+        "text": "Lean theorems over every finite history of the poll-granular OnceCell model (any number of wait/get_or_init/get_or_try_init/set callers, initialisers resolved ok/err/panic or cancelled at any await point in any order, take between epochs): at most one initialiser runs and none once initialised (state 1 iff exactly one live caller holds the guard; a value is stored iff state 2); a stored value is never replaced until take/drop; whatever a completed caller reports is the stored value; set hands its argument back exactly when its closure did not run; take re-opens the cell. " + _TIE + " Compared fields: outcome (incl. reported value), state word, stored value, drop count." + _ATOM + " Theorems: C04_interleaved_single (one initialiser under every interleaving), C04_publication (whoever reads state == Initialized has the ptr::write of the stored value in its view, given store Release / load Acquire from the table)." + _SEARCH,
         "note": "PARTIAL: 'dropped exactly once' is checked by the harness's per-instance drop log (and the drop count is compared with the model) but not yet a theorem; publication ordering and blocking forms are outside this model; atomic polls.",
     },
     "C08": {
